@@ -32,6 +32,12 @@ class C04Spec(explore.Spec):
         for ev in alpha.events(v, NAMES) + [alpha.rx(alpha.invalid_for(v)), ("set", 1, 0, 2, "0"), alpha.rx("1;255;0;0;6;abc"), alpha.rx("1;255;3;0;0;100"), ("fw", 1, 1, 1, "F1"), alpha.rx(f"253;255;0;0;17;{v}"), alpha.rx(f"0;255;0;0;18;{v}"), alpha.rx(alpha.lines(v)["FCA"]), alpha.rx(alpha.lines(v)["FRA0"])]:
             if ev not in evs:
                 evs.append(ev)
+        t = alpha.lines(v)
+        # internal lines that name a child other than 255 are invalid: they must leave the tree alone
+        evs += [alpha.rx("1;0;3;0;0;15"), alpha.rx("1;7;3;0;11;Bogus")]
+        if cfg.get("flavour") != "async":
+            # a burst: two lines queued before the poll thread runs - they take effect in arrival order
+            evs += [("rx2", t["SA0"], t["SA0z"]), ("rx2", t["PA"], t["CA0"]), ("rx2", t["SA0z"], t["SA0"])]
         return evs + self.alphabet_extra(cfg)
 
     def roots(self, cfg):
